@@ -45,6 +45,14 @@ CHECKS = [
      "technique": "bounded exhaustive enumeration over a cell grid x centrings x limits against brute-force box enumeration with independent centring rules",
      "text": "quick: every cell of the grid a,b,c in {3,4,5} x alpha,beta,gamma in {60,75,90,100,120} with positive volume (about 3000 cells) plus 17 named cells, thorough: a,b,c in {2,3,5,8,13,30} x angles in {55,70,90,110,125}; x all 7 centrings x 2 (3) d* limits: hkl set, multiplicity one, d* = |B.hkl| to 1e-10, ascending; x 3 ring tolerances: rings ascending, partition, neighbours within tol, equal d* in one ring.",
      "note": "oracle box |h| <= floor(|a| d*)+1 is rigorous; limits chosen incommensurate, reflections within 1e-9 of the limit are borderline"},
+    {"id": "C05", "engine": "E1-explore", "level": "exploration",
+     "technique": "bounded exhaustive enumeration of lattices x rotations x ring pairs x all hkl pairs against the ground-truth orientation",
+     "text": "13 lattices (cubic P/I/F, hexagonal, tetragonal, orthorhombic P/C, monoclinic, rhombohedral P and R-centred hexagonal, two triclinic, pseudo-cubic) x 3 (6) generic rotations x all ring pairs among the first 6 (9) rings x every hkl pair with |cos| < 0.98, in crange 1e-6, crange 0.004 and nearest-cosine mode: a candidate lattice-equivalent to the truth exists, all candidates right-handed with the cell's parameters, no two candidates equivalent; unambiguous pairs give the truth.",
+     "note": "hkl lists from the brute-force oracle; ideal g-vectors; pairs with |cos| >= 0.98 only counted (library cut-off)"},
+    {"id": "C04", "engine": "E1-explore", "level": "exploration",
+     "technique": "bounded exhaustive enumeration of a UBI table and of all NaN masks of small maps against algebraic identities",
+     "text": "12 cells x 8 rotations x 5 strains = 480 UBIs through grain, unitcell, indexing.ubito*, tensor_map guvectorised functions, TensorMap properties and point_by_point helpers against numpy identities (orthogonality, triangularity, U.B = inv(UBI), B^T.B = inv(mt), Rodrigues reconstruction, build-then-decompose); all 2^n NaN masks of maps with n <= 4 (6) voxels in several shapes x 3 fillings: masked voxels NaN, the others bit-identical to the unmasked map; the whole table as (n,), (1,1,n), (1,n/8,8), (2,n/16,8) maps voxel by voxel against grain.",
+     "note": "Rodrigues convention: xfab's vector describes U^T; either convention accepted; 180 degree rotation skipped for Rod (singular)"},
     # --- END CHECKS
 ]
 
